@@ -31,6 +31,15 @@ class EnvConfig(DefaultConfig):
     def type_rewriter(self):
         return REWRITERS[os.environ.get("MTV_RW", "default")]()
 
+    def code_filter(self):
+        """MTV_ONLY=<file>: the default filter, further restricted to that file's functions (cost control for the
+        harness; the unmodified DefaultConfig is exercised separately)"""
+        only = os.environ.get("MTV_ONLY")
+        base = super().code_filter()
+        if not only:
+            return base
+        return lambda code: code.co_filename == only and not code.co_name.startswith("_mtv_") and base(code)
+
     def sample_rate(self):
         r = os.environ.get("MTV_RATE")
         return int(r) if r else None
